@@ -616,6 +616,13 @@ class ConstNS(object):
         return v
 
 
+def _lit_eval(sf, name):
+    return ConstNS('_', sf, 'all').resolved(name)
+
+
+alggen.LIT_EVAL = _lit_eval
+
+
 def depth_of(v):
     """nesting depth of a rectangular-by-depth nested list of ints; raises on mixed depth."""
     if isinstance(v, int):
@@ -858,6 +865,22 @@ def run(repo, outdir, quiet=False):
             if write_if_changed(p, txt):
                 written.append(p)
 
+    # kernel-call programs of the parallel point formulas
+    k_results = {}
+    for kname, aname in alggen.K_MODULES:
+        amod = [m for m in alggen.ALG_MODULES if m.name == aname][0]
+        limb_rs = results.get(amod.vec['limb'], [])
+        backend = alggen.k_backend(amod, limb_rs)
+        rs = []
+        for spec in amod.items:
+            if alg_err is not None:
+                continue
+            rs.append(alggen.translate_k_item(srcs, amod, spec, alg_consts, backend, ITEM_ERRORS))
+        k_results[kname] = rs
+        p = os.path.join(outdir, kname + '.lean')
+        if write_if_changed(p, alggen.emit_k_module(HEADER, kname, amod, rs, backend)):
+            written.append(p)
+
     # constants
     const_manifest = {}
     ctext = [HEADER, 'namespace Dalek.Gen.Consts\n']
@@ -895,7 +918,8 @@ def run(repo, outdir, quiet=False):
     written.extend(inv_written)
 
     # All.lean
-    mods = [m.name for m in MODULES] + ['Consts'] + [m.name for m in alggen.ALG_MODULES] + ['Inventory', 'BranchInventory']
+    mods = [m.name for m in MODULES] + ['Consts'] + [m.name for m in alggen.ALG_MODULES] \
+        + [k for k, _ in alggen.K_MODULES] + ['Inventory', 'BranchInventory']
     alltext = HEADER + ''.join('import Dalek.Gen.%s\n' % m for m in mods)
     p = os.path.join(outdir, 'All.lean')
     if write_if_changed(p, alltext):
@@ -954,14 +978,17 @@ def run(repo, outdir, quiet=False):
         'generator': 'rs2lean',
         'items': items_man,
         'constants': const_manifest,
+        'kprog': dict((k, [alggen.k_manifest_entry(r) for r in k_results[k]]) for k in sorted(k_results)),
         'alg_const_names': alg_consts,
+        'alg_const_names_by_module': dict((m.name, getattr(m, 'const_names', alg_consts)) for m in alggen.ALG_MODULES),
         'alg_const_notes': alg_const_notes,
         'uncovered_fns': uncovered,
         'files': sorted(os.path.basename(x) for x in
                         [m.name + '.lean' for m in MODULES] + ['Consts.lean', 'All.lean', 'AllSh.lean',
                                                                'gen_manifest.json', 'Inventory.lean', 'BranchInventory.lean']
                         + [m.name + '.lean' for m in alggen.ALG_MODULES]
-                        + [m.name + 'Sh.lean' for m in alggen.ALG_MODULES]),
+                        + [m.name + 'Sh.lean' for m in alggen.ALG_MODULES]
+                        + [k + '.lean' for k, _ in alggen.K_MODULES]),
     }
     manifest.update(inv_manifest)
     p = os.path.join(outdir, 'gen_manifest.json')
@@ -977,6 +1004,12 @@ def run(repo, outdir, quiet=False):
     nalg = 0
     for amod in alggen.ALG_MODULES:
         for r in alg_results[amod.name]:
+            nalg += 1
+            if r['status'] != 'ok':
+                nfail += 1
+                sys.stderr.write('rs2lean: FAILED %s.%s: %s\n' % (r['module'], r['name'], r['message']))
+    for k in sorted(k_results):
+        for r in k_results[k]:
             nalg += 1
             if r['status'] != 'ok':
                 nfail += 1
